@@ -6,7 +6,7 @@
 From Coq Require Import List NArith ZArith.
 Import ListNotations.
 Require Import Base.Wire Base.PyStr C12.Model C12.Wrap C12.More C12.Fits C12.Plain C12.Total
-  C12.Chars C12.Parser C12.Format C12.Visible C12.EndToEnd C12.MoreNick C12.FmtEndToEnd C12.Ident.
+  C12.Chars C12.Parser C12.Format C12.Visible C12.EndToEnd C12.MoreNick C12.FmtEndToEnd C12.Ident C12.Safe.
 
 (* ---- byteTextWrap, for every word list (the output of TextWrapper._split_chunks is an
         explicit input) and every size >= 4 ---- *)
@@ -221,6 +221,21 @@ Theorem C12_prefix_tracks : forall U H acts N st known,
   i_nick st' = N' /\ (orb known (seen_own acts) = true -> i_prefix st' = hostmask N' U H).
 Proof. exact prefix_tracks. Qed.
 Print Assumptions C12_prefix_tracks.
+
+(* ---- the text is made a valid IRC argument before it is measured and wrapped ----
+   reply()'s length-checked branch starts with s = ircutils.safeArgument(s) (reply_top); every theorem
+   above is about that safe text.  [r] is repr(s) (CPython's, free of CR/LF/NUL): the safe text is a
+   valid argument, and so is every chunk byteTextWrap cuts from it -- the safeArgument that _makeReply()
+   applies to each chunk afterwards is the identity, it never lengthens a chunk that was already sized. *)
+Theorem C12_safe_text_valid : forall s r, valid_arg r = true -> valid_arg (safe_arg s r) = true.
+Proof. exact safe_arg_valid. Qed.
+Print Assumptions C12_safe_text_valid.
+
+Theorem C12_safe_chunks_valid : forall s r (n : Z) ls,
+  valid_arg r = true -> byteTextWrap (split_chunks (safe_arg s r)) n = Ok ls ->
+  Forall (fun c => safe_arg c [] = c) ls.
+Proof. exact safe_chunks_valid. Qed.
+Print Assumptions C12_safe_chunks_valid.
 
 (* ---- FormatParser never raises (full since the repair of F40) ---- *)
 Theorem C12_parse_total : forall s, exists r, parse s = Ok r.
